@@ -37,8 +37,9 @@ use scylla_cql_core::deserialize::value::{
 use scylla_cql_core::deserialize::{FrameSlice, TypeCheckError};
 use scylla_cql_core::frame::response::result::{ColumnSpec, ColumnType, NativeType, TableSpec};
 use scylla_cql_core::serialize::row::{
-    BuiltinSerializationError as RowSerErr, BuiltinSerializationErrorKind as RSK, SerializedValues,
+    BuiltinSerializationError as RowSerErr, BuiltinSerializationErrorKind as RSK, RowSerializationContext, SerializedValues,
 };
+use scylla_cql_core::serialize::RowWriter;
 use scylla_cql_core::serialize::value::{
     BuiltinSerializationError, BuiltinSerializationErrorKind as SK, BuiltinTypeCheckError,
     BuiltinTypeCheckErrorKind as TK, MapSerializationErrorKind as MSK, MapTypeCheckErrorKind as MTK,
@@ -395,3 +396,4 @@ tuple_car!(A 0, B 1, C 2, D 3);
 include!("c17/dynval.rs");
 include!("c17/registry.rs");
 include!("c17/run.rs");
+include!("c17/bind.rs");
